@@ -308,7 +308,7 @@ static int mmd3_load(struct module_data *m, HIO_HANDLE *f, const int start)
 		hio_seek(f, start + songname_offset, SEEK_SET);
 		D_(D_INFO "expdata.songnamelen = %d", expdata.songnamelen);
 		for (i = 0; i < expdata.songnamelen; i++) {
-			if (i >= XMP_NAME_SIZE)
+			if (i >= XMP_NAME_SIZE - 1)
 				break;
 			mod->name[i] = hio_read8(f);
 		}
